@@ -3,6 +3,7 @@ use super::resp::{AdvanceIndex, ArrayIndex, BulkStrIndex, DataIndex, IndexedResp
 use btoi::btoi;
 use bytes::BytesMut;
 use memchr::memchr;
+use std::cmp::min;
 use std::error::Error;
 use std::fmt;
 
@@ -86,7 +87,9 @@ fn parse_array(buf: &[u8]) -> Result<(ArrayIndex, usize), ParseError> {
     }
 
     let array_size = len as usize;
-    let mut array = Vec::with_capacity(array_size);
+    // Do not trust the declared size for the preallocation.
+    // The array can't have more elements than the bytes we received.
+    let mut array = Vec::with_capacity(min(array_size, buf.len()));
 
     for _ in 0..array_size {
         let next_buf = buf.get(consumed..).ok_or(ParseError::InvalidProtocol)?;
